@@ -660,7 +660,13 @@ def _interp_internal_from_weight(arr, axis, left, right, lhs_idx, rhs_idx, frac,
     # compute the weighted sum
     vleft = arr[lhs_idx]
     vright = arr[rhs_idx]
-    newval = vleft + _frac*(vright - vleft)
+    with np.errstate(invalid='ignore'):
+        newval = vleft + _frac*(vright - vleft)
+        # as numpy.interp: exact at the nodes, and from the right-hand node where the left-hand one gives nan (infinite values)
+        newval = np.where(_frac == 0, vleft, newval)
+        fromright = vright + (_frac - 1)*(vright - vleft)
+        newval = np.where(np.isnan(newval) & ~np.isnan(fromright), fromright, newval)
+        newval = np.where(np.isnan(newval) & (vleft == vright), vleft, newval)
 
     # fill values
     newval[left_idx] = left
